@@ -577,6 +577,29 @@ class C07(Base):
             acc.violation("two_error_flags", "two_error_flags",
                           {"flags": f}, T)
         rel = T.extra.get("draw_relevant")
+        if rel and T.words == 0:
+            # The draw did not come from NumPy's global RandomState, so it
+            # cannot be placed: fall back to what the property allows - the
+            # outcome frequencies are tested at the end of the run
+            # (finalize_frequency) and the effects of a failure are checked
+            # on what was observed.
+            acc.count("draw_relevant")
+            acc.count("draw_relevant_unscripted")
+            st = acc.extra.setdefault("c07_unscripted", {})
+            n, k = st.get(repr(d["prob"]), (0, 0))
+            st[repr(d["prob"])] = (n + 1, k + int(bool(T.success)))
+            if not T.success:
+                bad = []
+                if not np.array_equal(T.pre, T.post):
+                    bad.append("state changed")
+                if T.info.get("value", 0) != 0:
+                    bad.append("value gained")
+                if f != (False, False, False, True):
+                    bad.append(f"flags {f}")
+                if bad:
+                    acc.violation("chance_failure_effects",
+                                  "chance_failure_effects:unscripted", bad, T)
+            return
         if rel:
             if T.u is not None and bool(T.success) != bool(T.exp_success):
                 acc.violation(
@@ -625,6 +648,53 @@ class C07(Base):
                               mech_of(T, "draw_before_gate"),
                               {"words": T.words}, T)
 
+    @staticmethod
+    def finalize_frequency(acc):
+        """Frequency test for draws that could not be scripted (Hoeffding
+        bound at 1e-9 per probability value: never a flaky verdict)."""
+        import math
+        st = acc.extra.get("c07_unscripted") or {}
+        if not st:
+            return
+        total = sum(n for n, _k in st.values())
+        acc.extra["c07_mode"] = "frequency"
+        small = []
+        for key, (n, k) in st.items():
+            p = float(key)
+            if p == 1.0 and k != n:
+                acc.violation("prob1_failed_by_chance", "frequency:prob1",
+                              {"trials": n, "successes": k}, None)
+            elif p == 0.0 and k != 0:
+                acc.violation("prob0_succeeded", "frequency:prob0",
+                              {"trials": n, "successes": k}, None)
+            elif 0.0 < p < 1.0:
+                if n < 300:
+                    small.append((p, n, k))
+                    continue
+                eps = math.sqrt(math.log(2 / 1e-9) / (2 * n))
+                if abs(k / n - p) > eps:
+                    acc.violation("success_frequency", "frequency:interior",
+                                  {"p": p, "trials": n, "successes": k,
+                                   "tolerance": eps}, None)
+                acc.count("frequency_tests")
+        if small:
+            # pool the thin buckets: sum of (outcome - p) over all trials
+            N = sum(n for _p, n, _k in small)
+            dev = sum(k - n * p for p, n, k in small)
+            if N < 300:
+                if not acc.counters.get("frequency_tests"):
+                    acc.inconclusive.append(
+                        f"draw not interceptable and only {N} pooled trials:"
+                        " frequency test undecided")
+            else:
+                eps = math.sqrt(math.log(2 / 1e-9) / (2 * N))
+                if abs(dev / N) > eps:
+                    acc.violation("success_frequency", "frequency:pooled",
+                                  {"trials": N, "mean_deviation": dev / N,
+                                   "tolerance": eps}, None)
+                acc.count("frequency_tests")
+        acc.extra["c07_unscripted_total"] = total
+
     def pair(self, Tlo, Thi):
         """The same (state, action) with the draw on either side of p."""
         acc = self.acc
@@ -632,6 +702,9 @@ class C07(Base):
         self.single(Thi)
         if Tlo.raised or Thi.raised:
             return
+        if Tlo.extra.get("draw_relevant") and (Tlo.words == 0 or
+                                               Thi.words == 0):
+            return      # unscripted draw: decided by finalize_frequency
         d = Tlo.desc
         gate_lo, gate_hi = Tlo.gate, Thi.gate
         if gate_lo in NETWORK_GATES:
